@@ -41,7 +41,8 @@ def validate_parallel(ctx, path, label, chunks=8, timeout=1800, classify=None):
 
 def _key(binary, seed, tier):
     h = hashlib.sha256()
-    for p in [binary] + [os.path.join(vlib.SPECS, n) for n in DEPS + [TRACE, CFG]] + [__file__, vlib.__file__]:
+    for p in [binary] + [os.path.join(vlib.SPECS, n) for n in DEPS + [TRACE, CFG, "Sched.tla"] + sorted(
+            x for x in os.listdir(vlib.SPECS) if x.startswith("MC_Sched_"))] + [__file__, vlib.__file__]:
         h.update(open(p, "rb").read())
     h.update(("%s|%s|%s" % (seed, tier, vlib.REPO)).encode())
     return h.hexdigest()[:24]
@@ -52,6 +53,10 @@ def _run_all(ctx0, binary):
     every non-ok verdict is recorded with its reason (property prefix)."""
     ctx = vlib.Ctx("SCHED", ctx0.tier, ctx0.seed)
     try:
+        # design model: the same predicates are invariants of Sched.tla
+        for cfg in (["MC_Sched_core.cfg", "MC_Sched_gc.cfg", "MC_Sched_drain.cfg"] if ctx.quick()
+                    else ["MC_Sched_core.cfg", "MC_Sched_gc.cfg", "MC_Sched_drain.cfg", "MC_Sched_dedup.cfg"]):
+            vlib.design_check(ctx, "Sched.tla", cfg, DEPS, timeout=3600, workers=4, heap="6g")
         n = 60 if ctx.quick() else 600
         steps = 70 if ctx.quick() else 90
         out = ctx.sub("rand")
